@@ -70,13 +70,13 @@ func c14Domains(e *domEnv) []*msgDom {
 	var ds []*msgDom
 	ds = append(ds, &msgDom{Name: "aol.MsgCreateTopicRequest", New: func() sdk.Msg { return &aoltypes.MsgCreateTopicRequest{} }, Fields: []fdom{
 		sv("topic_name", func(m sdk.Msg, v string) { m.(*aoltypes.MsgCreateTopicRequest).TopicName = v }, "a", "b"),
-		sv("description", func(m sdk.Msg, v string) { m.(*aoltypes.MsgCreateTopicRequest).Description = v }, "", "x", "y", " x", "x ", "x\n", "\tx", "a\xffb", "a\xfeb", c14Long, c14LongLabel, "caf\u00e9", "cafe\u0301"), // ... a long text with the digest label a sign doc might abbreviate it to; precomposed vs decomposed text
+		sv("description", func(m sdk.Msg, v string) { m.(*aoltypes.MsgCreateTopicRequest).Description = v }, "", "x", "y", " x", "x ", "x\n", "\tx", `\tx`, `\u0078`, "a\xffb", "a\xfeb", c14Long, c14LongLabel, "caf\u00e9", "cafe\u0301"), // ... a long text with the digest label a sign doc might abbreviate it to; precomposed vs decomposed text
 		sv("owner_address", func(m sdk.Msg, v string) { m.(*aoltypes.MsgCreateTopicRequest).OwnerAddress = v }, A, B),
 	}})
 	ds = append(ds, &msgDom{Name: "aol.MsgAddWriterRequest", New: func() sdk.Msg { return &aoltypes.MsgAddWriterRequest{} }, Fields: []fdom{
 		sv("topic_name", func(m sdk.Msg, v string) { m.(*aoltypes.MsgAddWriterRequest).TopicName = v }, "a", "b"),
 		sv("moniker", func(m sdk.Msg, v string) { m.(*aoltypes.MsgAddWriterRequest).Moniker = v }, "", "x", "y"),
-		sv("description", func(m sdk.Msg, v string) { m.(*aoltypes.MsgAddWriterRequest).Description = v }, "", "x", "y", " x", "x\n", "a\xffb", "a\xfeb", c14Long, c14LongLabel, "caf\u00e9", "cafe\u0301"), // + byte strings that are not UTF-8, long text + its digest label, canonically equivalent text
+		sv("description", func(m sdk.Msg, v string) { m.(*aoltypes.MsgAddWriterRequest).Description = v }, "", "x", "y", " x", "x\n", "\tx", `\tx`, `\u0078`, "a\xffb", "a\xfeb", c14Long, c14LongLabel, "caf\u00e9", "cafe\u0301"), // + byte strings that are not UTF-8, long text + its digest label, canonically equivalent text
 		sv("writer_address", func(m sdk.Msg, v string) { m.(*aoltypes.MsgAddWriterRequest).WriterAddress = v }, W, B),
 		sv("owner_address", func(m sdk.Msg, v string) { m.(*aoltypes.MsgAddWriterRequest).OwnerAddress = v }, A, B),
 	}})
